@@ -262,7 +262,7 @@ def bounded_fallback(pid, repo, root, seed, lines, outdir=None):
     tests = {
         "C01": "TestWitnessGate|TestWitnessSubjects", "C02": "TestWitnessGate|TestWitnessSubjectsLive", "C03": "TestWitnessSubscription|TestWitnessGate",
         "C05": "TestWitnessSubjectsLive", "C08": "TestWitnessSubjectsLive|TestWitnessHandOff", "C13": "TestWitnessSubjectsLive", "C20": "TestWitnessSubjectsLive",
-        "C09": "TestWitnessSubjectsLive", "C17": "TestWitnessSubscription",
+        "C09": "TestWitnessSubjectsLive", "C17": "TestWitnessSubscription", "C16": "TestWitnessTimeDriven",
         "C06": "TestWitnessGate|TestWitnessSubscription", "C07": "TestWitnessGate|TestWitnessSubscription",
         "C10": "TestWitnessSubjects", "C11": "TestWitnessShare", "C14": "TestWitnessSubscription", "C15": "TestWitnessSubscription",
     }.get(pid)
